@@ -118,6 +118,30 @@ fn gen_history(r: &mut Rng, n: usize) -> (Vec<COp>, Vec<COp>) {
     (seq, conc)
 }
 
+/// Cross-node part: a session on the primary and a session on the first secondary have 1-3 operations each queued at once
+/// on the same keys (plain set / remove on x1, x2; increments only on xnum).
+pub fn gen_cross(r: &mut Rng) -> Vec<COp> {
+    let mut out = vec![];
+    if !r.chance(2, 3) {
+        return out;
+    }
+    let mut uniq = 500;
+    for node in 0..2 {
+        for _ in 0..r.range(1, 3) {
+            uniq += 1;
+            let k = *r.pick(&["x1", "x1", "x2", "xnum"]);
+            let kind: &'static str = if k == "xnum" { "increment" } else { *r.pick(&["set", "set", "remove"]) };
+            let line = match kind {
+                "set" => format!("set {} x{}", k, uniq),
+                "remove" => format!("remove {}", k),
+                _ => format!("increment {} {}", k, *r.pick(&[1i32, 2, 3, 5])),
+            };
+            out.push(COp { node, session: 0, line, kind, key: k.to_string() });
+        }
+    }
+    out
+}
+
 type Data = BTreeMap<String, BTreeMap<String, (String, i32)>>;
 
 /// Compares every node with the primary; returns (db, key, divergence kind, node index) for keys not yet tainted.
@@ -155,7 +179,7 @@ fn compare(sets: &[Data], tainted: &BTreeSet<String>) -> Vec<(String, String, &'
     out
 }
 
-pub fn run_history(n: usize, seq: &[COp], conc: &[COp], failover: bool, seed0: u64, v: &Verdicts, st: &Mutex<Stats>) {
+pub fn run_history(n: usize, seq: &[COp], conc: &[COp], cross: &[COp], failover: bool, seed0: u64, v: &Verdicts, st: &Mutex<Stats>) {
     // with `failover` the history runs on the n survivors of an (n+1)-node cluster whose first primary was killed:
     // every surviving link was opened under the old roles
     let Some(mut c) = form_cluster(if failover { n + 1 } else { n }, seed0, "c04") else {
@@ -202,7 +226,7 @@ pub fn run_history(n: usize, seq: &[COp], conc: &[COp], failover: bool, seed0: u
     // membership): what is pending when the history starts is the baseline the count must return to
     let pending_baseline: Vec<usize> = phys.iter().map(|p| c.pending_ops(*p)).collect();
     let base_lines = c.link_log().len();
-    let all_ops: Vec<String> = seq.iter().map(|o| format!("seq n{}: {}", o.node, o.line)).chain(conc.iter().map(|o| format!("conc n0/s{}: {}", o.session, o.line))).collect();
+    let all_ops: Vec<String> = seq.iter().map(|o| format!("seq n{}: {}", o.node, o.line)).chain(conc.iter().map(|o| format!("conc n0/s{}: {}", o.session, o.line))).chain(cross.iter().map(|o| format!("cross n{}: {}", o.node, o.line))).collect();
     let mut tainted: BTreeSet<String> = BTreeSet::new();
     let mut keys_compared = 0u64;
     let mut reported = false;
@@ -300,6 +324,67 @@ pub fn run_history(n: usize, seq: &[COp], conc: &[COp], failover: bool, seed0: u
             }
         }
     }
+    // ---- cross-node part: one session on the primary, one on a secondary, the same keys, everything queued at once.
+    // Whatever order the primary gives the operations, every secondary receives the same stream from it after its own
+    // local application: the secondaries must agree with each other on value and removed/live status of every key
+    // (the issuing secondary's version of a key it set itself is the known echo finding and is not compared), and a
+    // counter that only received increments must hold the same sum on every node.
+    if !reported && n == 3 && !cross.is_empty() {
+        // the keys exist everywhere before the race (a remove of an absent key is a no-op)
+        c.send("s0-0", "set x1 before");
+        c.send("s0-0", "set x2 before");
+        let _ = quiesce(&mut c);
+        c.sim.fine.store(2, std::sync::atomic::Ordering::SeqCst);
+        for o in cross {
+            c.send(&format!("s{}-0", o.node), &o.line);
+        }
+        match quiesce(&mut c) {
+            Err(why) if why.starts_with("stuck") => {
+                st.lock().unwrap().inconclusive += 1;
+                v.inconclusive(&why);
+                c.shutdown();
+                return;
+            }
+            Err(why) => {
+                let sets: Vec<Data> = phys.iter().map(|i| c.dataset(*i)).collect();
+                report(&c, json!({"check": "convergence", "cause": "sessions-on-primary-and-secondary", "problem": why}), String::new(), &sets);
+            }
+            Ok(()) => {
+                let sets: Vec<Data> = phys.iter().map(|i| c.dataset(*i)).collect();
+                let mut seen = BTreeSet::new();
+                for k in ["x1", "x2", "xnum"] {
+                    let mut kinds: Vec<String> = cross.iter().filter(|o| o.key == k).map(|o| format!("{}@{}", o.kind, if o.node == 0 { "primary" } else { "secondary" })).collect();
+                    kinds.sort();
+                    kinds.dedup();
+                    if kinds.is_empty() {
+                        continue;
+                    }
+                    keys_compared += 2;
+                    let at = |i: usize| sets[i].iter().find(|(name, _)| name.starts_with("d ")).and_then(|(_, m)| m.get(k)).map(|x| x.0.clone());
+                    let (p, s1, s2) = (at(0), at(1), at(2));
+                    if std::env::var("VERIF_DEBUG_CROSS").is_ok() {
+                        eprintln!("cross {} {:?} -> p {:?} s1 {:?} s2 {:?} | {:?}", k, kinds, p, s1, s2, cross.iter().map(|o| format!("n{} {}", o.node, o.line)).collect::<Vec<_>>());
+                    }
+                    let mut problems = vec![];
+                    if s1 != s2 {
+                        problems.push(if s1.is_some() != s2.is_some() { "the-secondaries-disagree-on-removed-or-live" } else { "the-secondaries-disagree-on-the-value" });
+                    }
+                    if k == "xnum" && (p != s1 || p != s2) {
+                        problems.push("a-counter-that-only-got-increments-differs-between-nodes");
+                    }
+                    for problem in problems {
+                        let sig = json!({"check": "convergence", "cause": "sessions-on-primary-and-secondary-on-one-key", "problem": problem, "concurrent_ops_on_key": kinds});
+                        if seen.insert(sig.to_string()) {
+                            report(&c, sig, format!("key {}: primary {:?}, issuing secondary {:?}, other secondary {:?}", k, p, s1, s2), &sets);
+                        }
+                    }
+                }
+                if !c.panics().is_empty() {
+                    report(&c, json!({"check": "convergence", "cause": "sessions-on-primary-and-secondary", "problem": "service-thread-panicked"}), c.panics().join(" | "), &sets);
+                }
+            }
+        }
+    }
     // pending operations: with stable membership nothing stays pending (C15, end to end)
     if !reported {
         for i in 0..n {
@@ -314,12 +399,12 @@ pub fn run_history(n: usize, seq: &[COp], conc: &[COp], failover: bool, seed0: u
         let mut kinds: Vec<String> = seq.iter().map(|o| format!("{}@{}", o.kind, if o.node == 0 { "p" } else { "s" })).collect();
         kinds.sort();
         kinds.dedup();
-        format!("n{}{}|{}|conc{}|{:x}", n, if failover { "f" } else { "" }, kinds.join(","), conc.len(), c.decisions_hash() & 0xffff)
+        format!("n{}{}|{}|conc{}|cross{}|{:x}", n, if failover { "f" } else { "" }, kinds.join(","), conc.len(), cross.len(), c.decisions_hash() & 0xffff)
     };
     {
         let mut s = st.lock().unwrap();
         s.runs += 1;
-        s.ops += (seq.len() + conc.len()) as u64;
+        s.ops += (seq.len() + conc.len() + cross.len()) as u64;
         s.shapes.insert(shape);
         s.link_lines += (c.link_log().len() - base_lines) as u64;
         s.keys_compared += keys_compared;
@@ -350,9 +435,10 @@ pub fn run(tier: &str) -> i32 {
                 let mut r = Rng::new(seed().wrapping_mul(2_000_003).wrapping_add(i as u64));
                 let n = r.range(2, 3);
                 let (seq, conc) = gen_history(&mut r, n);
+                let cross = gen_cross(&mut r);
                 // every fifth history runs on the survivors of a fail-over
                 let failover = i % 5 == 4;
-                run_history(n, &seq, &conc, failover, r.next(), v, st);
+                run_history(n, &seq, &conc, &cross, failover, r.next(), v, st);
             });
         }
     });
